@@ -69,11 +69,16 @@ def check_intrusive_list(ctx, unit, cls="frg::_list::intrusive_list"):
             """classify the node whose hook is written: 'new' (the element being inserted / erased) or 'nbr'."""
             if x is None:
                 return "?"
-            xs = RA.resolve_local(fn, x)
-            xs = std_unwrap(xs)
-            # traits::decay(y) is the identity on raw pointers
-            while xs.kind == "CallExpr" and xs.callee and xs.callee["n"] == "decay" and xs.args:
-                xs = std_unwrap(RA.resolve_local(fn, xs.args[0]))
+            # through once-initialised locals, parameters of folded helpers, helper results and traits::decay(y) (the
+            # identity on raw pointers), in any nesting
+            xs = std_unwrap(x)
+            for _ in range(12):
+                ys = std_unwrap(RA.resolve_local(fn, xs))
+                if ys.kind == "CallExpr" and ys.callee and ys.callee["n"] == "decay" and ys.args:
+                    ys = std_unwrap(ys.args[0])
+                if ys is xs or ys.id == xs.id:
+                    break
+                xs = ys
             if xs.kind == "DeclRefExpr" and xs.d["d"] in new_dids:
                 return "new"
             p = path(xs)
